@@ -12,7 +12,7 @@ Import ListNotations.
 Section Matcher.
 Context {M : MatchOps}.
 
-Record entry := mkEntry { e_pat : pat; e_flt : option filter }.
+Record entry := mkEntry { e_pat : pat; e_flt : option qfilter }.
 
 Definition group := (nat * list entry)%type.            (* clause count, entries in insertion order *)
 
@@ -69,7 +69,7 @@ Fixpoint groups_remove (gs : list group) (d : nat) (p : pat) : list group :=
   end.
 
 (* PathMatcher::PutPathString(path, optFilter)  (path.HasChars(): a pattern has at least one clause) *)
-Definition m_put (m : matcher) (p : pat) (f : option filter) : matcher :=
+Definition m_put (m : matcher) (p : pat) (f : option qfilter) : matcher :=
   match p with
   | [] => m
   | _ =>
@@ -90,7 +90,7 @@ Definition m_remove (m : matcher) (p : pat) : option matcher :=
   end.
 
 (* PathMatcher::SetFilterForEntry(path, newFilter) *)
-Definition m_set_filter (m : matcher) (p : pat) (f : option filter) : matcher :=
+Definition m_set_filter (m : matcher) (p : pat) (f : option qfilter) : matcher :=
   match m_get m p with
   | None => m
   | Some e =>
@@ -102,7 +102,7 @@ Definition m_set_filter (m : matcher) (p : pat) (f : option filter) : matcher :=
   end.
 
 (* PathMatcher::PutPathsFromMessage(keys, filters, msg, prefix): the (path, filter) pairs in field order *)
-Definition m_of_list (l : list (pat * option filter)) : matcher :=
+Definition m_of_list (l : list (pat * option qfilter)) : matcher :=
   fold_left (fun m pf => m_put m (fst pf) (snd pf)) l empty_matcher.
 
 Definition all_entries (m : matcher) : list entry := flat_map snd (m_groups m).
